@@ -213,7 +213,14 @@ def run_c12(cfg: GCfg, c: Ctx) -> Any:
     feats = [("ref", 0, False), ("id", 0, False), ("tag", 0, False), ("id", 1, False), ("ref", 1, False), ("id", 2, False), ("tag", 2, False)]
     if cfg.indexed:
         feats.append(("ref", 0, True))
+    # every member is named twice, by reference and by id; the node functions of the first and the last node are
+    # functools.partial objects (a reference alias then names a node whose callable is not the decorated object itself)
+    feats += [("dup", 0, False), ("partial", 0, False)]
     form, style, want_idx = feats[c.choose(len(feats), "naming")]
+    dup_members = form == "dup"
+    partial_fns = form == "partial"
+    if form in ("dup", "partial"):
+        form = "ref"
     clash = style == 1
     tags: Dict[str, Any] = {}
     for i, l in enumerate(labels):
@@ -233,7 +240,13 @@ def run_c12(cfg: GCfg, c: Ctx) -> Any:
         idx_dep = pairs[c.choose(len(pairs), "idx")]
     setup0 = bool(cfg.setup and not deps[labels[0]] and c.choose(2, "setup"))
     cnt = Counter()
-    xns = {l: xn(term_fn(l, cnt), tag=tags[l], setup=(setup0 and l == labels[0]), resource=Resource.main_thread) for l in labels}
+    import functools
+
+    def node_fn(l: str) -> Any:
+        f = term_fn(l, cnt)
+        return functools.partial(f) if (partial_fns and l in (labels[0], labels[-1])) else f
+
+    xns = {l: xn(node_fn(l), tag=tags[l], setup=(setup0 and l == labels[0]), resource=Resource.main_thread) for l in labels}
 
     def call_args(l: str, r: Dict[str, Any]) -> List[Any]:
         out: List[Any] = [7] if const_arg[l] else []
@@ -312,6 +325,8 @@ def run_c12(cfg: GCfg, c: Ctx) -> Any:
     for role, name in (("R", "root_nodes"), ("X", "exclude_nodes"), ("T", "target_nodes")):
         if chosen[role] is not None:
             kw[name] = [alias(m) for m in chosen[role]]
+            if dup_members:
+                kw[name] += [m for m in chosen[role] if not m.startswith("@")]
     data = {"deps": deps, "const_arg": const_arg, "tags": tags, "form": form, "chosen": chosen, "setup0": setup0}
 
     # optional history: the setup node already ran
@@ -702,11 +717,12 @@ def run_config_loaders(cfg: LCfg, c: Ctx) -> Any:
     addr = ("id", "tag", "shared-tag")[c.choose(3, "address")]
     loader = ("dict", "yaml", "json")[c.choose(3, "loader")]
     prio = {l: (0, 2, -1)[c.choose(3, "prio_" + l)] for l in labels}
-    seq = {l: bool(c.choose(2, "seq_" + l)) for l in labels}
+    seq_pattern = c.choose(3, "seq_pattern")  # none sequential / the first node / all nodes
+    seq = {l: (seq_pattern == 2 or (seq_pattern == 1 and l == labels[0])) for l in labels}
     if addr == "shared-tag":
         prio = {l: prio[labels[0]] for l in labels}
         seq = {l: seq[labels[0]] for l in labels}
-    mc = (1, 3)[c.choose(2, "mc")]
+    mc = (1, 3, None)[c.choose(3, "mc")]  # None: the configuration has no max_concurrency entry - the limit stays what it was
     order: List[str] = []
 
     def make(l: str) -> Any:
@@ -730,7 +746,9 @@ def run_config_loaders(cfg: LCfg, c: Ctx) -> Any:
         nodes_cfg: Dict[str, Any] = {"g": {"priority": prio[labels[0]], "is_sequential": seq[labels[0]]}}
     else:
         nodes_cfg = {(l if addr == "id" else "t_" + l): {"priority": prio[l], "is_sequential": seq[l]} for l in labels}
-    conf = {"nodes": nodes_cfg, "max_concurrency": mc}
+    conf = {"nodes": nodes_cfg, "max_concurrency": mc} if mc is not None else {"nodes": nodes_cfg}
+    if mc is None:
+        mc = 2  # the value the DAG was built with
     data: Dict[str, Any] = {"deps": deps, "address": addr, "loader": loader, "config": conf}
     if loader == "dict":
         d.config_from_dict(conf)
